@@ -971,7 +971,9 @@ class TupleOf(DataType):
         return tuple(sub.import_value(elem) for sub, elem in zip(self.members, value))
 
     def format_value(self, value, unit=True):
-        return f"({', '.join([sub.format_value(elem, unit) for sub, elem in zip(self.members, value)])})"
+        items = [sub.format_value(elem, unit) for sub, elem in zip(self.members, value)]
+        # a tuple with one element needs a trailing comma: '(1)' is not a tuple
+        return f"({', '.join(items)}{',' if len(items) == 1 else ''})"
 
     def compatible(self, other):
         if not isinstance(other, TupleOf):
